@@ -246,6 +246,21 @@ fn candidate_words() -> Vec<String> {
     set.into_iter().collect()
 }
 
+/// identifiers that rssl's own reserved-name tables list (string literals of hlsl/src/names.rs and msl/src/names.rs)
+fn names_rs_words() -> BTreeSet<String> {
+    let mut set = BTreeSet::new();
+    for f in ["hlsl/src/names.rs", "msl/src/names.rs"] {
+        if let Ok(t) = std::fs::read_to_string(format!("{}/{}", repo_root(), f)) {
+            for s in string_literals(&t) {
+                if is_ident(&s) {
+                    set.insert(s);
+                }
+            }
+        }
+    }
+    set
+}
+
 fn is_ident(s: &str) -> bool {
     let b = s.as_bytes();
     !b.is_empty() && (b[0].is_ascii_alphabetic() || b[0] == b'_') && b.iter().all(|c| c.is_ascii_alphanumeric() || *c == b'_')
@@ -2699,10 +2714,12 @@ pub fn run(ctx: &Ctx) -> i32 {
     // type-use position templates: every word that is not of a large uniform family in the thorough tier; otherwise up to
     // REPS representatives (alphabetically first, accepted by the front end as a name of that role) of every class of words
     // (category in our HLSL list, category in our MSL list, origin)
+    // a word that rssl's own tables reserve without it being a language word of either target is a name its generators use
+    let own_tables = names_rs_words();
     let origin_of = |w: &str| -> &'static str {
         if lists.hlsl.contains_key(w) || lists.msl.contains_key(w) {
             "reserved-word"
-        } else if MSL_GENERATOR.contains(&w) || w.starts_with("set") || w.starts_with("o_") {
+        } else if MSL_GENERATOR.contains(&w) || w.starts_with("set") || w.starts_with("o_") || own_tables.contains(w) {
             "generator-name"
         } else {
             "other-word"
@@ -2908,7 +2925,13 @@ pub fn run(ctx: &Ctx) -> i32 {
         acc.evals += 1;
         let ren = t.src.replace('@', w);
         let map = [(BASE.to_string(), w.clone())];
-        let p = Pair { space: "f", role: t.role, base: &base_src[*ti], ren: &ren, map: &map, strict: Strict::Free, cfg, mode: &mode, origin: origin_of(w), certified: false, note: &t.variant };
+        // the words of space f are identifiers the exporters wrote themselves: whatever list they are (not) in, a word that
+        // is not a language word of either target is a generator name by construction
+        let f_origin = match origin_of(w) {
+            "other-word" => "generator-name",
+            o => o,
+        };
+        let p = Pair { space: "f", role: t.role, base: &base_src[*ti], ren: &ren, map: &map, strict: Strict::Free, cfg, mode: &mode, origin: f_origin, certified: false, note: &t.variant };
         match check_pair(&p, &base.0, &base.1, bases[*ti][ci].accepted, &lists, acc) {
             Verdict::Outside => acc.count("f_word_not_accepted_in_role"),
             v => {
